@@ -1,6 +1,7 @@
 package rules
 
 import (
+	"sort"
 	"go/types"
 	"strings"
 
@@ -54,6 +55,8 @@ func findErrAcc(r *an.Run, f *ssa.Function, loop *an.Loop) *errAcc {
 			case *ssa.Call:
 				if an.IsCallTo(x, "builtin:append") {
 					mark(x.Call.Args[0])
+				} else if li, _, ok := appendHelper(an.StaticCallee(x)); ok && li < len(x.Call.Args) {
+					mark(x.Call.Args[li])
 				}
 			}
 		}
@@ -68,6 +71,24 @@ func findErrAcc(r *an.Run, f *ssa.Function, loop *an.Loop) *errAcc {
 						}
 					}
 					acc.recs = append(acc.recs, rec)
+				}
+				// `errors = logFailure(log, errors, name, cause, reported)`: a helper that returns its list
+				// parameter with some of its other parameters appended
+				if c, ok := in.(*ssa.Call); ok && reaches[c] {
+					if _, elems, ok := appendHelper(an.StaticCallee(c)); ok {
+						rec := errRecord{at: c}
+						for _, ei := range elems {
+							if ei < len(c.Call.Args) {
+								rec.vals = append(rec.vals, c.Call.Args[ei])
+								for v := range an.BackSlice(c.Call.Args[ei], an.SliceOpts{ThroughMemory: true}) {
+									if fc, ok := v.(*ssa.Call); ok && an.IsCallTo(fc, "fmt.Errorf") {
+										rec.formats = true
+									}
+								}
+							}
+						}
+						acc.recs = append(acc.recs, rec)
+					}
 				}
 			}
 		}
@@ -241,4 +262,54 @@ func isAccRecord(m *runModel, c ssa.CallInstruction) bool {
 		}
 	}
 	return false
+}
+
+// appendHelper: h is a module function with one result, a []error, and every
+// return hands back `append(list, e…)` where list is h's parameter number li
+// and every appended element is one of h's parameters (numbers elems).
+func appendHelper(h *ssa.Function) (li int, elems []int, ok bool) {
+	if h == nil || h.Blocks == nil || !an.InModule(h) || h.Signature.Results().Len() != 1 || an.ShortType(h.Signature.Results().At(0).Type()) != "[]error" {
+		return 0, nil, false
+	}
+	pidx := func(v ssa.Value) int {
+		for i, p := range h.Params {
+			if v == ssa.Value(p) {
+				return i
+			}
+		}
+		return -1
+	}
+	li = -1
+	seenElem := map[int]bool{}
+	rets := an.Returns(h)
+	if len(rets) == 0 {
+		return 0, nil, false
+	}
+	for _, ret := range rets {
+		c, isCall := ret.Results[0].(*ssa.Call)
+		if !isCall || !an.IsCallTo(c, "builtin:append") {
+			return 0, nil, false
+		}
+		i := pidx(c.Call.Args[0])
+		if i < 0 || li >= 0 && li != i {
+			return 0, nil, false
+		}
+		li = i
+		els := appendedElements(c)
+		if len(els) == 0 {
+			return 0, nil, false
+		}
+		for _, e := range els {
+			j := pidx(e)
+			if j < 0 {
+				return 0, nil, false
+			}
+			seenElem[j] = true
+		}
+	}
+	for j := range seenElem {
+		elems = append(elems, j)
+	}
+	sort.Ints(elems)
+	return li, elems, true
 }
